@@ -889,7 +889,7 @@ def sample_view(plan):
 class _Prop:
     ID = "C06"
     TIERS = {
-        "quick": {"runs": 25_000, "wall": 80, "det_n": 150, "shrink_s": 40},
+        "quick": {"runs": 50_000, "wall": 80, "det_n": 150, "shrink_s": 40},
         "thorough": {"runs": 500_000, "wall": 1100, "det_n": 1000, "shrink_s": 120},
     }
     OPTS = {"chunk": 100, "chunk_wall": 300, "catch_kbi": True}
